@@ -1,9 +1,306 @@
 import Pose.Wire
 import Pose.Driver.Lie
-/-! Driver ops for C04. -/
-namespace PP.Driver
-open PP Wire
+import Pose.Model.Autograd
+/-!
+# Driver ops for C04 (autograd through LieTensor ops)
 
-def opsC04 : List (String × Handler) := []
+Request grammar (all numbers are exact `m:e` tokens):
+
+    c04.eval <eps> <PROG> <ENV>
+    c04.grad <eps> <PROG> <ENV> <VEC>                      -- model backprop, cotangent VEC
+    c04.fd   <eps> <PROG> <ENV> <VEC> <outkind> <leaf>      -- true left-perturbation gradient of leaf by central
+                                                             differences of the model's forward pass (192 bit)
+    PROG  := <ntok> tok…      tok := L<i> | U:<Exp|Log|Inv|Matrix>:<g> | B:<Mul|Act|Act4|Adj|AdjT|Jinvp>:<g>   (prefix order)
+    ENV   := <nleaf> { <kind> <len> num… }      kind := SO3|SE3|RxSO3|Sim3 (group leaf) | V (algebra / Euclidean leaf)
+    VEC   := <len> num…
+    outkind := SO3|SE3|RxSO3|Sim3|V
+
+`c04.grad` replies with the concatenated leaf gradients (storage length each), then the per-leaf sums of
+|contribution| (same layout) and the largest cotangent entry met in the sweep (conditioning information).
+`c04.fd` replies with the `adim` (group leaf) or `len` (vector leaf) numbers
+`d/dt <c, chart(out(t))>` at `t = 0` for the perturbation `Exp(t e_j) @ X` resp. `x + t e_j`.
+-/
+namespace PP.Driver
+open PP Wire PP.AD
+
+def grpOf (s : String) : Except String Grp :=
+  match s with
+  | "SO3" => .ok .SO3 | "SE3" => .ok .SE3 | "RxSO3" => .ok .RxSO3 | "Sim3" => .ok .Sim3
+  | _ => .error s!"bad-group:{s}"
+
+def op1Of (s : String) : Except String Op1 :=
+  match s with
+  | "Exp" => .ok .Exp | "Log" => .ok .Log | "Inv" => .ok .Inv | "Matrix" => .ok .Matrix
+  | _ => .error s!"bad-op1:{s}"
+
+def op2Of (s : String) : Except String Op2 :=
+  match s with
+  | "Mul" => .ok .Mul | "Act" => .ok .Act | "Act4" => .ok .Act4 | "Adj" => .ok .Adj
+  | "AdjT" => .ok .AdjT | "Jinvp" => .ok .Jinvp
+  | _ => .error s!"bad-op2:{s}"
+
+/-- parse one program in prefix order; returns the rest of the tokens -/
+def parseProg : Nat → List String → Except String (Prog × List String)
+  | 0, _ => .error "prog-fuel"
+  | _, [] => .error "prog-eof"
+  | fuel + 1, t :: rest =>
+    if t.startsWith "L" then
+      match (t.drop 1).toString.toNat? with
+      | some i => .ok (.leaf i, rest)
+      | none => .error s!"bad-leaf:{t}"
+    else
+      match t.splitOn ":" with
+      | ["U", o, g] => do
+        let o ← op1Of o; let g ← grpOf g
+        let (p, r) ← parseProg fuel rest
+        return (.un o g p, r)
+      | ["B", o, g] => do
+        let o ← op2Of o; let g ← grpOf g
+        let (p, r) ← parseProg fuel rest
+        let (q, r) ← parseProg fuel r
+        return (.bin o g p q, r)
+      | _ => .error s!"bad-tok:{t}"
+
+def parseProgN (ts : List String) : Except String (Prog × List String) :=
+  match ts with
+  | n :: rest => do
+    let n ← nat n
+    let (ptoks, r) ← Wire.take n rest
+    let (p, left) ← parseProg (n + 1) ptoks
+    if left.isEmpty then return (p, r) else throw "prog-trailing"
+  | [] => .error "arity"
+
+def parseVec (ts : List String) : Except String (List B × List String) :=
+  match ts with
+  | n :: rest => do
+    let n ← nat n
+    let (xs, r) ← Wire.take n rest
+    let xs ← nums xs
+    return (xs, r)
+  | [] => .error "arity"
+
+def parseLeaves : Nat → List String → Except String (List (String × List B) × List String)
+  | 0, ts => .ok ([], ts)
+  | n + 1, kind :: ts => do
+    let (v, r) ← parseVec ts
+    let (vs, r) ← parseLeaves n r
+    return ((kind, v) :: vs, r)
+  | _, [] => .error "arity"
+
+def parseEnv (ts : List String) : Except String (List (String × List B) × List String) :=
+  match ts with
+  | n :: rest => do let n ← nat n; parseLeaves n rest
+  | [] => .error "arity"
+
+/-! ### stand-in for PyTorch's autograd of the built-in ops inside `*_Jl_inv` (contract parameter `dJ`) -/
+
+def two : B := BigF.ofNat 2
+def hStep (e : Int) : B := ⟨1, e⟩
+
+/-- `eps'` that forces the branch taken at the base point (masks are constants for autograd) -/
+def forcedEps (g : Grp) (eps : B) (phi : List B) : B :=
+  let th := match g with
+    | .SO3 | .RxSO3 => (AD.v3 phi 0).norm
+    | .SE3 | .Sim3 => (AD.v3 phi 3).norm
+  if Scalar.lt eps th then BigF.neg BigF.one else ⟨1, 600⟩
+
+def bump (x : List B) (j : Nat) (d : B) : List B :=
+  (List.range x.length).map (fun i => if i == j then AD.nth x i + d else AD.nth x i)
+
+/-- central-difference Jacobian of `φ ↦ Jl_inv(φ)·p` with step `h` -/
+def dJh (g : Grp) (eps : B) (phi p : List B) (h : B) : DMat B :=
+  let e' := forcedEps g eps phi
+  let cols := (List.range g.adim).map fun j =>
+    let fp := jlInvP g e' (bump phi j h) p
+    let fm := jlInvP g e' (bump phi j (BigF.neg h)) p
+    DVec.smul (BigF.div BigF.one (two * h)) (DVec.sub fp fm)
+  DMat.transpose cols
+
+def maxAbs (xs : List B) : B := xs.foldl (fun m x => if BigF.lt m (BigF.abs x) then BigF.abs x else m) BigF.zero
+
+/-- consistency of the stand-in (Richardson): `|D_h − D_2h| ≤ 2⁻⁶⁰ (1 + max|D|)` -/
+def dJok (g : Grp) (eps : B) (phi p : List B) : Bool :=
+  let a := (dJh g eps phi p (hStep (-64))).flat
+  let b := (dJh g eps phi p (hStep (-63))).flat
+  let d := maxAbs (DVec.sub a b)
+  BigF.le d (hStep (-60) * (BigF.one + maxAbs a))
+
+def dJpure : DJ B := fun g eps phi p => dJh g eps phi p (hStep (-64))
+
+/-- check the contract at every `Jinvp` node of a program -/
+def checkDJ (eps : B) (env : List (List B)) : Prog → Bool
+  | .leaf _ => true
+  | .un _ _ p => checkDJ eps env p
+  | .bin o g p q =>
+    checkDJ eps env p && checkDJ eps env q &&
+      (match o with
+       | .Jinvp => dJok g eps (logF g eps (eval eps env p)) (eval eps env q)
+       | _ => true)
+
+/-! ### finite-difference oracle
+
+The oracle differentiates the *mathematical* program.  The forward passes of `Lie.lean` are used as they are,
+except `rxso3_Ws`: its small-`σ` regimes use constants (`C = 1`, `A = 1/2`, …) whose values are right to `eps` but
+whose `σ`-derivative is not the derivative of the true `W(σ, φ) = Σ (σ1+K)ⁿ/(n+1)!`.  The reference `W` below sums that
+series exactly in the basis `{1, K, K²}` (`K³ = −θ²K`). -/
+
+def wsRefCoef (th2 sigma : B) (nterms : Nat) : B × B × B := Id.run do
+  -- Mⁿ = a·1 + b·K + c·K²,  M = σ1 + K;   W = Σ_{n≥0} Mⁿ/(n+1)!
+  let mut a : B := BigF.one
+  let mut b : B := BigF.zero
+  let mut c : B := BigF.zero
+  let mut f : B := BigF.one      -- 1/(n+1)!
+  let mut sa : B := BigF.zero
+  let mut sb : B := BigF.zero
+  let mut sc : B := BigF.zero
+  for n in List.range nterms do
+    f := BigF.div f (BigF.ofNat (n + 1))
+    sa := sa + f * a
+    sb := sb + f * b
+    sc := sc + f * c
+    let a' := sigma * a
+    let b' := sigma * b + a - th2 * c
+    let c' := sigma * c + b
+    a := a'; b := b'; c := c'
+  return (sa, sb, sc)
+
+def wsRef (x : rxso3 B) : Mat3 B :=
+  let th2 := x.phi.normSq
+  let mag := (BigF.abs x.sigma + x.phi.norm)
+  let n := 40 + 14 * (BigF.floorInt mag).toNat
+  let co := wsRefCoef th2 x.sigma n
+  polyK co.1 co.2.1 co.2.2 x.phi
+
+def sim3ExpRef (eps : B) (x : sim3 B) : Sim3 B :=
+  let r := rxso3Exp eps ⟨x.phi, x.sigma⟩
+  ⟨(wsRef ⟨x.phi, x.sigma⟩).mulVec x.tau, r.q, r.s⟩
+
+def Sim3LogRef (eps : B) (X : Sim3 B) : sim3 B :=
+  let ps := RxSO3Log eps ⟨X.q, X.s⟩
+  ⟨(wsRef ps).inv.mulVec X.t, ps.phi, ps.sigma⟩
+
+def fwd1R (o : Op1) (g : Grp) (eps : B) (x : List B) : List B :=
+  match o, g with
+  | .Exp, .Sim3 => (sim3ExpRef eps (AD.tosim x)).toList
+  | .Log, .Sim3 => (Sim3LogRef eps (AD.toSim x)).toList
+  | _, _ => fwd1 o g eps x
+
+def fwd2R (o : Op2) (g : Grp) (eps : B) (x y : List B) : List B :=
+  match o, g with
+  | .Jinvp, .Sim3 => jlInvP g eps (Sim3LogRef eps (AD.toSim x)).toList y
+  | _, _ => fwd2 o g eps x y
+
+def evalR (eps : B) (env : List (List B)) : Prog → List B
+  | .leaf i => env.getD i []
+  | .un o g p => fwd1R o g eps (evalR eps env p)
+  | .bin o g p q => fwd2R o g eps (evalR eps env p) (evalR eps env q)
+
+def retrR (g : Grp) (eps : B) (X tau : List B) : List B := mulF g (fwd1R .Exp g eps tau) X
+def chartR (g : Grp) (eps : B) (Y0 Y : List B) : List B := fwd1R .Log g eps (mulF g Y (invF g Y0))
+
+def pertLeaf (eps : B) (kind : String) (x : List B) (j : Nat) (t : B) : List B :=
+  match grpOf kind with
+  | .ok g => retrR g eps x ((List.range g.adim).map fun i => if i == j then t else BigF.zero)
+  | .error _ => bump x j t
+
+def setNth (env : List (List B)) (i : Nat) (v : List B) : List (List B) :=
+  (List.range env.length).map fun n => if n == i then v else env.getD n []
+
+/-- `<c, chart(out)>` -/
+def pairing (eps : B) (outkind : String) (c y0 y : List B) : B :=
+  match grpOf outkind with
+  | .ok g => DVec.dot (headN g.adim c) (chartR g eps y0 y)
+  | .error _ => DVec.dot c y
+
+/-- central difference with step `2^e`, Richardson-checked against step `2^(e+1)` -/
+def fdOne (F : B → B) (e : Int) : Option B :=
+  let h := hStep e
+  let h2 := hStep (e + 1)
+  let d1 := BigF.div (F h - F (BigF.neg h)) (two * h)
+  let d2 := BigF.div (F h2 - F (BigF.neg h2)) (two * h2)
+  let sc := BigF.one + BigF.abs d1
+  if BigF.le (BigF.abs (d1 - d2)) (hStep (-50) * sc) then some d1 else none
+
+def fdLeaf (eps : B) (p : Prog) (kinds : List String) (env : List (List B)) (c : List B) (outkind : String)
+    (leaf : Nat) : Except String (List B) := do
+  let kind := kinds.getD leaf "V"
+  let x := env.getD leaf []
+  let n := match grpOf kind with | .ok g => g.adim | .error _ => x.length
+  let y0 := evalR eps env p
+  let F := fun (j : Nat) (t : B) => pairing eps outkind c y0 (evalR eps (setNth env leaf (pertLeaf eps kind x j t)) p)
+  let mut out : List B := []
+  for j in List.range n do
+    match fdOne (F j) (-40) with
+    | some d => out := out ++ [d]
+    | none =>
+      match fdOne (F j) (-80) with
+      | some d => out := out ++ [d]
+      | none =>
+        match fdOne (F j) (-120) with
+        | some d => out := out ++ [d]
+        | none => throw s!"fd-unstable:{j}"
+  return out
+
+/-- largest |entry| of any cotangent flowing through the reverse sweep (condition information only) -/
+def cotMax (dJ : DJ B) (eps : B) (env : List (List B)) : Prog → List B → B
+  | .leaf _, go => maxAbs go
+  | .un o g p, go =>
+    let x := eval eps env p
+    let m := cotMax dJ eps env p (bwd1 o g eps x (fwd1 o g eps x) go)
+    let a := maxAbs go
+    if BigF.lt m a then a else m
+  | .bin o g p q, go =>
+    let x := eval eps env p
+    let y := eval eps env q
+    let r := bwd2 dJ o g eps x y (fwd2 o g eps x y) go
+    let m1 := cotMax dJ eps env p r.1
+    let m2 := cotMax dJ eps env q r.2
+    let a := maxAbs go
+    let m := if BigF.lt m1 m2 then m2 else m1
+    if BigF.lt m a then a else m
+
+def opsC04 : List (String × Handler) := [
+  ("c04.eval", fun ts => do
+    match ts with
+    | e :: rest =>
+      let eps ← num e
+      let (p, r) ← parseProgN rest
+      let (lv, r) ← parseEnv r
+      if !r.isEmpty then throw "trailing"
+      return fmt (eval eps (lv.map (·.2)) p)
+    | [] => throw "arity"),
+  ("c04.grad", fun ts => do
+    match ts with
+    | e :: rest =>
+      let eps ← num e
+      let (p, r) ← parseProgN rest
+      let (lv, r) ← parseEnv r
+      let (c, r) ← parseVec r
+      if !r.isEmpty then throw "trailing"
+      let env := lv.map (·.2)
+      if !(checkDJ eps env p) then throw "contract:dJ"
+      let cs := backprop dJpure eps env p c
+      let gs := (List.range env.length).map fun i => grad (env.getD i []).length i cs
+      -- conditioning information for the tolerance: per-leaf sums of |contribution| and the largest cotangent met
+      let csAbs := cs.map fun c => (c.1, c.2.map BigF.abs)
+      let as := (List.range env.length).map fun i => grad (env.getD i []).length i csAbs
+      let cm := cotMax dJpure eps env p c
+      return fmt (gs.flatten ++ as.flatten ++ [cm])
+    | [] => throw "arity"),
+  ("c04.fd", fun ts => do
+    match ts with
+    | e :: rest =>
+      let eps ← num e
+      let (p, r) ← parseProgN rest
+      let (lv, r) ← parseEnv r
+      let (c, r) ← parseVec r
+      match r with
+      | [outkind, leaf] =>
+        let leaf ← nat leaf
+        let out ← fdLeaf eps p (lv.map (·.1)) (lv.map (·.2)) c outkind leaf
+        return fmt out
+      | _ => throw "arity"
+    | [] => throw "arity")
+]
 
 end PP.Driver
